@@ -5,6 +5,7 @@ import Gene.Yaml
 import Gene.Getter
 import Gene.Spec.Admit
 import Gene.Spec.Scan
+import Gene.RelCheck
 /-! Line-protocol driver: one JSON object per input line, one JSON answer per line.
     Runs the model's executable definitions (the very ones the theorems are about) and the spec's. -/
 open Lean Gene
@@ -544,6 +545,28 @@ def templatedRules (x : Ext) (tdocs : List Tpls) (rules : List Rule) : Json :=
       | some e => Json.mkObj [("compile", compErrJson e)]
       | none => Json.arr (c3.rules.map ruleOutJson).toArray
 
+/-- the engine the model builds for a scenario (what `runScenario` scans with) -/
+def modelEngine (x : Ext) (tdocs : List Tpls) (rules : List Rule) : Option Engine :=
+  let rec loadT : List Tpls → Compiler → Option Compiler
+    | [], c => some c
+    | t :: ts, c =>
+      if (t.map Prod.fst).eraseDups.length != t.length then none
+      else match M.Compiler.loadTemplates c t with
+      | .ok c' => loadT ts c'
+      | .error _ => none
+  let rec loadR : List Rule → Compiler → Option Compiler
+    | [], c => some c
+    | r :: rs, c => match M.Compiler.load c r with
+      | .ok c' => loadR rs c'
+      | .error _ => none
+  match loadT tdocs {} with
+  | none => none
+  | some c1 => match loadR rules c1 with
+    | none => none
+    | some c2 => match M.Engine.ofCompiler x c2 with
+      | .ok eng => some eng
+      | .error _ => none
+
 def handle (j : Json) : E Json := do
   let op ← j.getObjValAs? String "op"
   match op with
@@ -836,7 +859,13 @@ def handle (j : Json) : E Json := do
         | none =>
           let en := (sr.filter (fun p => !p.2)).map Prod.fst
           Json.mkObj [("scans", Json.arr (events.map (fun ev => specOutJson (S.scan x ev en))).toArray)]
-      pure (Json.mkObj [("model", model), ("spec", spec)])
+      -- the hypothesis of the refinement theorem, decided per event (Gene/Props/RelCheck.lean: `checked_refines`)
+      let rel : Json := match modelEngine x tdocs rules with
+        | some eng =>
+          let en := (sr.filter (fun p => !p.2)).map Prod.fst
+          Json.arr (events.map (fun ev => Json.bool (Gene.Props.Refine.rulesRelB x ev en eng.rules))).toArray
+        | none => Json.null
+      pure (Json.mkObj [("model", model), ("spec", spec), ("rel", rel)])
     else pure (Json.mkObj [("model", model)])
   | _ => throw s!"unknown op {op}"
 
